@@ -283,6 +283,15 @@ def judge(events, outs):
             how = ("data-" + "+".join(out["via_data"])) if out.get("via_data") else "model"
             if out.get("reads") == "offset":
                 how += "@offset-reads"
+            if out.get("via_data") and out.get("rows_where"):
+                # where in the period the differing rows lie: only days whose UTC offset differs from the period's first
+                # day or that sit next to an offset change ("dst"), those plus the period's edge days, or ordinary
+                # interior days as well
+                rows = set(out["rows_where"].split("+"))
+                how += "@rows=" + ("dst" if rows <= {"shifted", "transition"} else
+                                   "edge+dst" if rows <= {"shifted", "transition", "edge"} else "interior")
+                if (a.get("recipe") or {}).get("entry") in ("frame", "frame_col"):
+                    how += "@daily-frame"
             if out.get("after_altered_same") is False:
                 V.append(_v("C05", f"C05/{fl}/pair/{alt}/earlier-usage-leaks:{_cols(out.get('after_altered_diff') or [])}", ev,
                             out.get("history")))
